@@ -44,6 +44,7 @@ import (
 type c21Target struct{ Scheme, Host, Port string } // Port "" = none spelled
 
 type c21Op struct {
+	Build string      // "" = SetRequestURI(full URL); "host+scheme" = Host header + path, then URI().SetScheme
 	Via   string      // Do | DoRedirects
 	T     c21Target   // the URL requested
 	Redir []c21Target // DoRedirects: the server redirects to these in turn
@@ -114,7 +115,7 @@ func c21CaseString(cs *c21Case) string {
 		fmt.Fprintf(&sb, " upstream(%s,tls=%v)", u.Addr, u.IsTLS)
 	}
 	for _, o := range cs.Ops {
-		fmt.Fprintf(&sb, " %s %s://%s", o.Via, o.T.Scheme, o.T.hostport())
+		fmt.Fprintf(&sb, " %s%s %s://%s", o.Via, map[bool]string{true: "(" + o.Build + ")"}[o.Build != ""], o.T.Scheme, o.T.hostport())
 		for _, t := range o.Redir {
 			fmt.Fprintf(&sb, "=>%s://%s", t.Scheme, t.hostport())
 		}
@@ -414,7 +415,17 @@ func c21Exec(cs *c21Case, n *c21Net) (res []c21OpResult, cl *Client, bad string)
 		op := &cs.Ops[i]
 		u, _ := op.urls(i)
 		req, resp := AcquireRequest(), AcquireResponse()
-		req.SetRequestURI(u)
+		if op.Build == "host+scheme" {
+			pu, e := url.Parse(u)
+			if e != nil {
+				return nil, nil, "url.Parse: " + e.Error()
+			}
+			req.Header.SetHost(pu.Host)
+			req.SetRequestURI(pu.RequestURI())
+			req.URI().SetScheme(pu.Scheme)
+		} else {
+			req.SetRequestURI(u)
+		}
 		var err error
 		switch op.Via {
 		case "Do":
@@ -751,6 +762,33 @@ func c21Spaces(r *vrt.R) []c21Space {
 					if !ok {
 						return
 					}
+				}
+			}
+		}})
+	sp = append(sp, c21Space{"K1c: requests built from Host header + path + URI().SetScheme instead of a full URL: Client, every sequence of 1..2 Do calls; HostClient/LBClient single calls",
+		func(yield func(*c21Case) bool) {
+			for n := 1; n <= 2; n++ {
+				ok := seqx.Product(dimsN(n, ns), -1, func(x []int) bool {
+					cs := c21Case{Client: "Client", Hook: "Dial", Verify: "skip"}
+					for _, s := range x {
+						cs.Ops = append(cs.Ops, c21Op{Build: "host+scheme", Via: "Do", T: sym[s]})
+					}
+					return yield(&cs)
+				})
+				if !ok {
+					return
+				}
+			}
+			for _, s := range sym {
+				for _, u := range []c21Upstream{{"hosta:80", false}, {"hosta:443", true}} {
+					cs := c21Case{Client: "HostClient", Hook: "Dial", Verify: "skip", Upstreams: []c21Upstream{u}, Ops: []c21Op{{Build: "host+scheme", Via: "Do", T: s}}}
+					if !yield(&cs) {
+						return
+					}
+				}
+				cs := c21Case{Client: "LBClient", Hook: "Dial", Verify: "skip", Upstreams: []c21Upstream{{"hosta:80", false}, {"hosta:443", true}}, Ops: []c21Op{{Build: "host+scheme", Via: "Do", T: s}, {Build: "host+scheme", Via: "Do", T: s}}}
+				if !yield(&cs) {
+					return
 				}
 			}
 		}})
